@@ -129,14 +129,14 @@ func (g *GcsEmu) Handler(w http.ResponseWriter, r *http.Request) {
 			if strings.HasSuffix(r.URL.Path, "/o") {
 				g.handleGcsListBucket(ctx, baseUrl, w, r.URL.Query(), bucket)
 			} else {
-				g.handleGcsMetadataRequest(baseUrl, w, bucket, object)
+				g.handleGcsMetadataRequest(ctx, baseUrl, w, bucket, object)
 			}
 		} else {
 			alt := r.URL.Query().Get("alt")
 			if alt == "media" || (p.IsPublic && alt == "") {
-				g.handleGcsMediaRequest(baseUrl, w, r.Header.Get("Accept-Encoding"), bucket, object)
+				g.handleGcsMediaRequest(ctx, baseUrl, w, r.Header.Get("Accept-Encoding"), bucket, object)
 			} else if alt == "json" || (!p.IsPublic && alt == "") {
-				g.handleGcsMetadataRequest(baseUrl, w, bucket, object)
+				g.handleGcsMetadataRequest(ctx, baseUrl, w, bucket, object)
 			} else {
 				// should never happen?
 				g.gapiError(w, http.StatusBadRequest, fmt.Sprintf("unsupported value for alt param to GET: %q\n%s", alt, maybeNotImplementedErrorMsg))
@@ -294,8 +294,16 @@ func (g *GcsEmu) handleGcsDelete(ctx context.Context, w http.ResponseWriter, buc
 	w.WriteHeader(http.StatusNoContent)
 }
 
-func (g *GcsEmu) handleGcsMediaRequest(baseUrl HttpBaseUrl, w http.ResponseWriter, acceptEncoding, bucket, filename string) {
-	obj, contents, err := g.store.Get(baseUrl, bucket, filename)
+func (g *GcsEmu) handleGcsMediaRequest(ctx context.Context, baseUrl HttpBaseUrl, w http.ResponseWriter, acceptEncoding, bucket, filename string) {
+	// Read under the object lock: a store may write an object in several steps (the file store writes content,
+	// modification time and metadata separately), and a reader must not see a mixture of two versions.
+	var obj *storage.Object
+	var contents []byte
+	err := g.locks.Run(ctx, lockName(bucket, filename), func(ctx context.Context) error {
+		var err error
+		obj, contents, err = g.store.Get(baseUrl, bucket, filename)
+		return err
+	})
 	if err != nil {
 		g.gapiError(w, http.StatusInternalServerError, fmt.Sprintf("failed to check existence of %s/%s: %s", bucket, filename, err))
 		return
@@ -340,7 +348,7 @@ func (g *GcsEmu) handleGcsMediaRequest(baseUrl HttpBaseUrl, w http.ResponseWrite
 	}
 }
 
-func (g *GcsEmu) handleGcsMetadataRequest(baseUrl HttpBaseUrl, w http.ResponseWriter, bucket string, filename string) {
+func (g *GcsEmu) handleGcsMetadataRequest(ctx context.Context, baseUrl HttpBaseUrl, w http.ResponseWriter, bucket string, filename string) {
 	var obj interface{}
 	var err error
 	if filename == "" {
@@ -351,7 +359,12 @@ func (g *GcsEmu) handleGcsMetadataRequest(baseUrl HttpBaseUrl, w http.ResponseWr
 		}
 	} else {
 		var o *storage.Object
-		o, err = g.store.GetMeta(baseUrl, bucket, filename)
+		// under the object lock, for the same reason as in handleGcsMediaRequest
+		err = g.locks.Run(ctx, lockName(bucket, filename), func(ctx context.Context) error {
+			var err error
+			o, err = g.store.GetMeta(baseUrl, bucket, filename)
+			return err
+		})
 		if o != nil {
 			obj = o
 		}
